@@ -17,7 +17,7 @@ use crate::{
 
 mod adapter;
 pub use adapter::RdfTerm;
-use adapter::convert_quad;
+use adapter::{convert_quad, invalid_bnode};
 
 mod source;
 pub use source::JsonLdQuadSource;
@@ -88,13 +88,23 @@ impl<LF> JsonLdParser<LF> {
             .await
         {
             Err(ToRdfError::Expand(err)) => JsonLdQuadSource::from_err(err),
-            Ok(mut to_rdf) => JsonLdQuadSource::Quads(
-                to_rdf
-                    .cloned_quads()
-                    .map(convert_quad)
-                    .collect::<Vec<Spog<RdfTerm>>>()
-                    .into_iter(),
-            ),
+            Ok(mut to_rdf) => {
+                let quads: Vec<_> = to_rdf.cloned_quads().collect();
+                if let Some(id) = quads.iter().find_map(invalid_bnode) {
+                    let msg = format!("blank node identifier {id} is not a valid blank node label");
+                    return JsonLdQuadSource::from_err(std::io::Error::new(
+                        std::io::ErrorKind::InvalidData,
+                        msg,
+                    ));
+                }
+                JsonLdQuadSource::Quads(
+                    quads
+                        .into_iter()
+                        .map(convert_quad)
+                        .collect::<Vec<Spog<RdfTerm>>>()
+                        .into_iter(),
+                )
+            }
         }
     }
 
